@@ -723,6 +723,17 @@ pub fn check_state(p: &Props, ops: &[Op], info: &PlanInfo, obs: &Obs, last_only:
             }
         }
     }
+    // C07: inside a batch every system - thread-local ones included - runs exactly once on every inner dispatch
+    if p.c07 {
+        if let (Some(runs), None) = (&obs.runs, &obs.dispatch_panic) {
+            for n in info.nodes.iter().filter(|n| n.parent.is_some() && !info.rejected.contains(&n.id)) {
+                let exp = expected_runs(info, n.id, 6, 5);
+                if runs[n.id] != exp {
+                    out.push(v("C07", "inner-system-not-once-per-inner-dispatch", format!("system {} (inside a batch, depth {}{}) ran {} times after [dispatch_seq, dispatch_par, dispatch, dispatch_thread_local, RunNow::run_now, dispatch on a second world, dispatch on the first world], expected {}: {}", n.id, n.depth, if n.kind == Kind::Tl { ", thread-local" } else { "" }, runs[n.id], exp, l.short())));
+                }
+            }
+        }
+    }
     if p.c04 {
         for (missing, runs, panic) in &obs.runs_absent {
             let what = if *missing == 0 { "A" } else { "C" };
